@@ -153,7 +153,7 @@ class BranchConvSmoother(Transform[Branch, Branch[DictSWC]]):
     def __call__(self, x: Branch) -> Branch[DictSWC]:
         x = x.detach()
         c = signal.convolve(np.ones(x.number_of_nodes()), self.kernel, mode="same")
-        for k in ["x", "y", "z"]:
+        for k in [x.names.x, x.names.y, x.names.z]:
             v = x.get_ndata(k)
             s = signal.convolve(v, self.kernel, mode="same")
             x.attach.ndata[k][1:-1] = (s / c)[1:-1]
